@@ -239,7 +239,13 @@ func RunPoolSeq(c PoolSeqCase) pbt.Outcome {
 // runPoolSeq: mk makes the item of a serial number, serialOf reads it back (0 = the zero item; ok=false = a value that
 // is neither an item nor the zero value: invented). The harness itself keeps items only while it "holds" them.
 func runPoolSeq[T any](c PoolSeqCase, mk func(int) T, serialOf func(T) (int, bool)) pbt.Outcome {
-	var p sync2.Pool[T]
+	// the Pool sits behind an int32 field of a heap-allocated struct: where int is 32 bits wide that puts it at an address
+	// that is 4 mod 8 (a library that uses 64-bit atomics on plain uint64 fields must keep them aligned itself)
+	holder := &struct {
+		pad int32
+		p   sync2.Pool[T]
+	}{}
+	p := &holder.p
 	reg := map[int]*stok{}
 	serial, factory := 0, 0
 	install := func() {
@@ -460,3 +466,22 @@ var specPoolIdle = pbt.Register(&pbt.Spec[PoolSeqCase]{
 })
 
 func TestC18PoolIdle(t *testing.T) { pbt.Check(t, specPoolIdle) }
+
+// ---------------------------------------------------------------- the same histories in a 32-bit build
+
+var specX86 = pbt.Register(&pbt.Spec[PoolSeqCase]{
+	Property: "C18", Name: "C18.x86",
+	Rule: "the histories of C18.poolseq (without the long sleeps) in a GOARCH=386 build (plan.json): int, uint and uintptr are 32 bits wide, and the Pool sits at an address that is 4 mod 8",
+	Gen:  func(t *rapid.T) PoolSeqCase { return specPoolSeq.Gen(t) },
+	Run: func(c PoolSeqCase) pbt.Outcome {
+		for i := range c.Ops {
+			if c.Ops[i].K == "sleep" && c.Ops[i].A > 100 {
+				c.Ops[i].A = 2
+			}
+		}
+		return RunPoolSeq(c)
+	},
+	Quick: 1500, Thorough: 20000,
+})
+
+func TestC18X86(t *testing.T) { pbt.Check(t, specX86) }
